@@ -183,3 +183,14 @@ func (s *BadgerStore) VInmem() *InmemStore { return s.inmemStore }
 // VDbSetEvents writes events straight to the database (the transaction
 // BadgerStore.SetEvent runs after the cache update).
 func (s *BadgerStore) VDbSetEvents(events []*Event) error { return s.dbSetEvents(events) }
+
+// VStronglySee is the node's own "x strongly sees y" for the validator set of the given round (memoised exactly as the
+// consensus functions see it); VSee is its "x sees y".
+func (h *Hashgraph) VStronglySee(x, y string, round int) (bool, error) {
+	ps, err := h.Store.GetPeerSet(round)
+	if err != nil {
+		return false, err
+	}
+	return h.stronglySee(x, y, ps)
+}
+func (h *Hashgraph) VSee(x, y string) (bool, error) { return h.see(x, y) }
